@@ -132,6 +132,16 @@ def generate(rng, tier):
     n_init = rng.choice([0, 1, 2, 3, 5, 8])
     init_ids = rng.sample(order, min(n_init, len(order)))
     init_flat = {sid: descr_for(sid) for sid in init_ids}
+    if comps and rng.random() < 0.12:
+        # a component ships a syntactically broken default for an id that the explicit configuration
+        # describes: with this configuration the default is never looked at; a configuration without
+        # the item rejects the component (a fault, injected through the global-configuration ops)
+        c = rng.choice(comps)
+        bad_id = c["name"].upper() + ".BROKEN"
+        c["bad"] = {"id": bad_id, "descr": rng.choice(["RED:BLUE", "a:b:c:d", "RED:boldd"])}
+        c["defaults"] = dict(flatten(c["defaults"]))
+        c["defaults"][bad_id] = c["bad"]["descr"]
+        init_flat[bad_id] = colorgen.gen_descr(rng, [], dash_ok)
     init = colorgen.nest(init_flat, rng)
     init_alias = []
     groups = [k for k, v in (init or {}).items() if isinstance(v, dict)]
@@ -324,6 +334,17 @@ class World:
                 out.append((None, flatten(getattr(p, "SYNTAX_DEFAULTS", None) or {})))
         out.append((name, flatten(getattr(c, "SYNTAX_DEFAULTS", None) or {})))
         return out
+
+    def broken_for(self, reg, name, seen=None):
+        """does a first use of `name` with a configuration described by `reg` hit a broken default?"""
+        seen = set() if seen is None else seen
+        if name in seen or name not in self.comp_spec:
+            return False
+        seen.add(name)
+        spec = self.comp_spec[name]
+        if spec.get("bad") and spec["bad"]["id"] not in reg.items:
+            return True
+        return any(self.broken_for(reg, p, seen) for p in spec.get("parents", ()))
 
     def deliver_comp(self, reg, name, registered):
         before = {sid: reg.is_resolved(sid) for sid in reg.items}
@@ -555,10 +576,25 @@ def execute(trace, rng):
                     w.deliver_comp(regM, name, w.used)
                 w.stats["global_switch"] += 1
             elif k == "global_other":
-                w.sut("set_global_colors_config(None)", color.set_global_colors_config, None)
-                G = color.get_global_colors_config()
                 regG = Registry()
                 regG.deliver(w.default_builtin_flat)
+                if any(w.broken_for(regG, name) for name, _ in w.synced):
+                    # fault: a synced component cannot register in a configuration without the masking item.
+                    # The call may raise; the new global configuration and the synced palettes are then in
+                    # an unspecified state until a configuration that accepts everything becomes global
+                    try:
+                        color.set_global_colors_config(None)
+                    except ValueError:
+                        pass
+                    w.stats["sync_faults"] = w.stats.get("sync_faults", 0) + 1
+                    G = color.get_global_colors_config()
+                    g_registered = []
+                    glabel = "tainted"
+                    log.add("op", n, k, "fault")
+                    w.check_conf(M, regM, w.used, "M")
+                    continue
+                w.sut("set_global_colors_config(None)", color.set_global_colors_config, None)
+                G = color.get_global_colors_config()
                 g_registered = []
                 glabel = "O"
                 for name, _ in w.synced:
@@ -569,6 +605,19 @@ def execute(trace, rng):
                 if (name not in REAL and name not in w.comp_spec) or name in COMPOUND:
                     continue
                 cls = w.cls(name)
+                if glabel == "tainted" or (G is not M and w.broken_for(regG, name)):
+                    # the global configuration cannot take this component (or is in an unspecified state)
+                    try:
+                        pal = cls(synced=True)
+                    except ValueError:
+                        pal = None
+                    if pal is not None and not any(nm == name for nm, _ in w.synced):
+                        # (a second attempt succeeds: the class counts as registered after the failed first one)
+                        w.synced.append((name, pal))
+                    if glabel != "tainted":
+                        w.stats["sync_faults"] = w.stats.get("sync_faults", 0) + 1
+                        glabel = "tainted"
+                    continue
                 pal = w.sut(f"{name}(synced=True)", cls, synced=True)
                 if not any(nm == name for nm, _ in w.synced):
                     w.synced.append((name, pal))
@@ -580,6 +629,8 @@ def execute(trace, rng):
                 continue
             log.add("op", n, k, op.get("comp"))
             w.check_conf(M, regM, w.used, "M")
+            if glabel == "tainted":
+                continue
             if G is not M:
                 w.check_conf(G, regG, g_registered, "O")
             w.check_global(G, regG, glabel)
@@ -604,6 +655,7 @@ def execute(trace, rng):
         status = violation_result(v)
     st = dict(w.stats)
     st["fault.poisoned_batch"] = st["poison"]
+    st["fault.component_rejected_by_global_config"] = st.get("sync_faults", 0)
     st["ref_requests"] = rw.ref_requests()
     nontrivial = bool(w.stats["late_resolutions"] or w.stats["explicit_wins"])
     h = hashlib.blake2b(json.dumps([trace["init"], trace.get("init_alias"), trace.get("conf_subclass"),
